@@ -125,6 +125,7 @@ type Model struct {
 	Ends     []int64 // Ends[i] = offset at which source command i ends (start offset + bytes up to and including it)
 	SrcDB    []int   // source DB in effect for command i (after processing it, for SELECT)
 	TxnOf    []int   // source transaction id of command i (brackets included), -1 outside
+	Names    []string // lower-case name of command i
 	Bytes    []byte
 	Start    int64
 }
@@ -171,6 +172,7 @@ func Interpret(cmds []SrcCmd, cfg OutCfg, start int64, startSrcDB int) *Model {
 		off += int64(len(enc))
 		m.Ends = append(m.Ends, off)
 		name := c.Lower()
+		m.Names = append(m.Names, name)
 		switch name {
 		case "select":
 			if len(c.Args) == 1 {
